@@ -1,5 +1,6 @@
 import TextxVerif.Wire
 import TextxVerif.RuleTypes
+import TextxVerif.RuleTypesTree
 /-! Driver for the rule-kind model (C03).
 request:
   {"op":"check","rules":[{"attrs":bool,"body":B}…],"trees":[T…]}
@@ -8,7 +9,8 @@ request:
 answer:
   {"ok":bool,"kinds":["match"|"abstract"|"common"…],"inh":[[n…]…],
    "isinst":[[o,[R…]]…]   (for every rule o with assignments: the rules R with isInstance o R),
-   "vals":[V…]}            V = {"p":text} | {"o":rule,"a":[[attr,[V…]]…]}
+   "vals":[V…],            V = {"p":text} | {"o":rule,"a":[[attr,[V…]]…]}
+   "wf":[bool…]}           per tree: `treeOK` — the children of every abstract rule's node derive from the rule's body
   {"err":"bad-op"} for an undecodable request, {"err":"not-wf"} for a dangling reference
 -/
 open Lean Wire RuleTypes
@@ -84,7 +86,8 @@ def handle (j : Json) : Json :=
           ("inh", toJson inhTab),
           ("isinst", Json.arr (objRules.map fun o =>
               Json.arr #[toJson o, toJson (idx.filter fun R => (dfs inh o (n + 1) R []).1)]).toArray),
-          ("vals", Json.arr (trees.map fun t => valJson (proc k t)).toArray)]
+          ("vals", Json.arr (trees.map fun t => valJson (proc k t)).toArray),
+          ("wf", toJson (trees.map fun t => treeOK g k t))]
       else Json.mkObj [("err", "not-wf")]
     | _, _ => badOp
   | _ => badOp
